@@ -197,6 +197,7 @@ type solveCfg struct {
 	parallel int
 	keepAll  bool
 	short    map[string]bool // obligation names (per goal) that get the first two stages only
+	arming   bool            // -update-expect: sweep obligations are armed only if they discharge at once
 }
 
 // fileBase turns an obligation name into a file name of bounded length.
@@ -257,7 +258,10 @@ func decide(cfg solveCfg, v *Verdict) {
 			v.Detail = firstLines(text, 5)
 		}
 	}
-	if cfg.tier == "thorough" && !expectSat {
+	if cfg.arming && strings.Contains(v.Name, "/sweep/") {
+		a, t, el := runSolver("z3-new", v.File, cfg.quickT)
+		record(a, "z3-new", el, t)
+	} else if cfg.tier == "thorough" && !expectSat {
 		// all three solvers: at least one unsat and no sat
 		type r struct {
 			ans, solver, text string
